@@ -27,6 +27,16 @@ def run():
         bad += expect("Embed.tla refutes the pinned span semantics (raw mode)", "EmbedInvariant" in r.violated, str(r.summary()))
         r = tlc.run_tlc("Embed", cfg="MC_Embed_trimmed.cfg", env=env, timeout=300)
         bad += expect("Embed.tla holds with trimmed spans", r.ok and r.distinct > 1000, str(r.summary()))
+        # vacuity: every action of the engine / sessions / registry models is taken (TLC -coverage 1)
+        for module, cfg, actions in (("MC_SearchImpl", "MC_SearchImpl_I2_d2.cfg", ["ScoreInit", "InitDone", "Pop", "ApplyOne", "ExpandDone", "EmitOne", "EmitDone", "Finish", "Expire"]),
+                                     ("MC_Sessions", "MC_Sessions_2a.cfg", ["Step", "Abandon", "Crash"]),
+                                     ("RuleReg", "MC_RuleReg.cfg", ["Register"]),
+                                     ("Derive", "MC_Derive_pod_q.cfg", ["Next"])):
+            r = tlc.run_tlc(module, cfg=cfg, env=env, timeout=600, coverage=True, workers=4)
+            missing = [a for a in actions if r.coverage.get(a, (0, 0))[1] == 0]
+            bad += expect("%s/%s: every action taken (%s)" % (module, cfg, ", ".join("%s=%d" % (a, r.coverage.get(a, (0, 0))[1]) for a in actions)),
+                          r.ok and not missing, "never taken: %s" % missing)
+        # the refinement SearchImpl => Search is refuted as soon as a depth limit truncates the stack
     finally:
         shutil.rmtree(tmp, ignore_errors=True)
     # 2. rule rows: a corrupted row must be rejected, the genuine ones accepted
